@@ -147,6 +147,40 @@ private theorem scanEdges_spec (p : Poly K) (dir : V3 K) (seps : K) (first : Nat
             · exact ⟨eid, E, heid, hE, hc⟩
             · exact h2 hr j hj
 
+/-- outcome of the face scan of `ConvexPolygon::support_feature_id_toward` (offset `i0` = index of the head) -/
+private theorem scanNormals2_spec (dir : V2 K) (ceps : K) :
+    ∀ (ns : List (V2 K)) (i0 : Nat) (r : Option Nat), scanNormals2 dir ceps ns i0 = r →
+      (∀ i, r = some i → i0 ≤ i ∧ ∃ n, ns[i - i0]? = some n ∧ ceps ≤ n.dot dir ∧
+          ∀ (j : Nat) (m : V2 K), j < i - i0 → ns[j]? = some m → ¬ ceps ≤ m.dot dir) ∧
+      (r = none → ∀ m ∈ ns, ¬ ceps ≤ m.dot dir) := by
+  intro ns
+  induction ns with
+  | nil => intro i0 r h; simp [scanNormals2] at h; subst h; simp
+  | cons n ns ih =>
+    intro i0 r h
+    unfold scanNormals2 at h
+    by_cases c : ceps ≤ n.dot dir
+    · rw [if_pos c] at h; subst h
+      refine ⟨?_, by simp⟩
+      intro i hi; injection hi with hi; subst hi
+      refine ⟨le_refl _, n, by simp, c, ?_⟩
+      intro j m hj; omega
+    · rw [if_neg c] at h
+      obtain ⟨h1, h2⟩ := ih (i0 + 1) r h
+      refine ⟨?_, ?_⟩
+      · intro i hi
+        obtain ⟨hle, m, hm, hc, hfirst⟩ := h1 i hi
+        have e : i - i0 = (i - (i0 + 1)) + 1 := by omega
+        refine ⟨by omega, m, by rw [e, List.getElem?_cons_succ]; exact hm, hc, ?_⟩
+        intro j m' hj hm'
+        cases j with
+        | zero => simp at hm'; subst hm'; exact c
+        | succ j => rw [List.getElem?_cons_succ] at hm'; exact hfirst j m' (by omega) hm'
+      · intro hr m hm
+        rcases List.mem_cons.1 hm with rfl | hm
+        · exact c
+        · exact h2 hr m hm
+
 end anyNum
 
 variable {K : Type} [Field K] [LinearOrder K] [IsStrictOrderedRing K] (sq : K → K)
@@ -362,6 +396,59 @@ theorem polyhedron_feature_id_spec (p : Poly K) (dir : V3 K) (seps ceps : K) (r 
           obtain ⟨eid, E, a, b, c⟩ := hnoedge rfl j (List.mem_range.2 hj)
           refine ⟨eid, E, a, b, ?_⟩
           rw [← habs]; exact not_le.1 c
+
+/-! ## `ConvexPolygon::support_feature_id_toward` (2-D) -/
+
+/-- **C10 (`ConvexPolygon::support_feature_id_toward`, documented angular tolerance)**: with `ns` the edge normals of the
+polygon and `ceps = cos ε`: `Face i` ⇒ `ns[i]·dir ≥ ceps` (edge `i` is within `ε` of `dir`) and `i` is the first such edge;
+`Vertex v` ⇒ no edge normal is within `ε` of `dir`, and `v` is the first maximiser of `dir·p` over the points — a support
+point of the whole polygon; an `Edge` id is never returned. -/
+theorem polygon_feature_id_spec (pts : List (V2 K)) (dir : V2 K) (ceps : K) (r : FeatId) :
+    letI := fieldNum K sq
+    polygonFeatureIdEps pts dir ceps = some r →
+    ∃ ns : List (V2 K), polygonNormalsOpt pts = some ns ∧
+      (∀ i, r = .face i → ∃ n : V2 K, ns[i]? = some n ∧ ceps ≤ n.dot dir ∧
+          ∀ (j : Nat) (m : V2 K), j < i → ns[j]? = some m → m.dot dir < ceps) ∧
+      (∀ v, r = .vertex v → (∀ m ∈ ns, m.dot dir < ceps) ∧
+          ∃ P, cloudId2 dir pts = some v ∧ pts[v]? = some P ∧ IsSupport2 sq (hullMem2 pts) dir P) ∧
+      (∀ e, r ≠ .edge e) := by
+  intro h
+  letI : Num K := fieldNum K sq
+  unfold polygonFeatureIdEps at h
+  split at h
+  · exact absurd h (by simp)
+  · rename_i ns hns
+    refine ⟨ns, hns, ?_⟩
+    cases hscan : scanNormals2 dir ceps ns 0 with
+    | some i =>
+      rw [hscan] at h
+      injection h with h; subst h
+      obtain ⟨h1, _⟩ := scanNormals2_spec dir ceps ns 0 _ hscan
+      obtain ⟨_, n, hn, hc, hfirst⟩ := h1 i rfl
+      refine ⟨?_, (by intro v hv; cases hv), (by intro e he; cases he)⟩
+      intro i' hi'; injection hi' with hi'; subst hi'
+      refine ⟨n, by simpa using hn, hc, ?_⟩
+      intro j m hj hm
+      exact not_le.1 (hfirst j m (by simpa using hj) hm)
+    | none =>
+      rw [hscan] at h
+      obtain ⟨_, h2⟩ := scanNormals2_spec dir ceps ns 0 _ hscan
+      cases hid : cloudId2 dir pts with
+      | none => rw [hid] at h; simp at h
+      | some v =>
+        rw [hid] at h
+        simp only [Option.map_some, Option.some.injEq] at h
+        subst h
+        refine ⟨(by intro i hi; cases hi), ?_, (by intro e he; cases he)⟩
+        intro v' hv'; injection hv' with hv'; subst hv'
+        refine ⟨fun m hm => not_le.1 (h2 rfl m hm), ?_⟩
+        have hne : pts ≠ [] := by
+          intro h0; rw [h0] at hid; simp [cloudId2] at hid
+        obtain ⟨i, P, hi, hP, _, hsup, _⟩ := cloud_support2 sq dir pts hne
+        have : i = v := by rw [hi] at hid; exact Option.some.inj hid
+        subst this
+        exact ⟨P, rfl, hP, hsup⟩
+
 
 /-! ## `CSOPoint::from_shapes` -/
 
